@@ -342,8 +342,22 @@ def check_counting(ctx):
                 ok_c = True
     ctx.check(ok_c, R4, f"{s.key}:_n_circuits_executed", "one circuit per native segment only", "the circuits counter is not bumped exactly once per native segment (and not for non-native ones)", s)
     # simulator entry point returns hook result without counting itself
-    sm = repo.func("api.wavefunction_simulator:BaseWavefunctionSimulator.run_and_measure")
-    ctx.check(not counter_writes(sm.node), R4, f"{sm.key}:no-double-count", "the simulator's entry point leaves counting to get_wavefunction", "the simulator's run_and_measure counts in addition to get_wavefunction (double counting)", sm)
+    SIM = "api.wavefunction_simulator:BaseWavefunctionSimulator"
+    if repo.has_func(f"{SIM}.run_and_measure"):
+        sm = repo.func(f"{SIM}.run_and_measure")
+        ctx.check(not counter_writes(sm.node), R4, f"{sm.key}:no-double-count", "the simulator's entry point leaves counting to get_wavefunction", "the simulator's run_and_measure counts in addition to get_wavefunction (double counting)", sm)
+    else:
+        # the simulator inherits BaseCircuitRunner.run_and_measure, which bumps both counters once per call: then nothing
+        # its hook reaches may count as well, and the per-segment accounting of get_wavefunction is lost for sampling
+        hook = repo.func(f"{SIM}._run_and_measure")
+        ci = hook.cls
+        reached = []
+        for c in body_walk(hook.node):
+            if isinstance(c, ast.Call) and isinstance(c.func, ast.Attribute) and norm(c.func.value) == "self" and ci is not None:
+                t = repo.find_method(ci, c.func.attr)
+                if t is not None and counter_writes(t.node):
+                    reached.append(t.qualname)
+        ctx.check(False, R4, f"{SIM}.run_and_measure:no-double-count", "", f"BaseWavefunctionSimulator no longer defines run_and_measure: the inherited entry point counts one job and one circuit per call, so sampling is not counted per executed segment any more (hook reaches counting code: {reached or 'none'})", hook)
 
 
 def check_tracker(ctx):
